@@ -6,21 +6,26 @@ use std::pin::Pin;
 use std::sync::{Arc, Mutex};
 use std::task::{Context, Poll};
 
-use beetswap::multihasher::StandardMultihasher;
 use beetswap::verif::proto::mod_Message::{Block, BlockPresence, BlockPresenceType};
 use beetswap::verif::proto::Message;
 use beetswap::verif::{incoming_parts, incoming_stream, HasherTable, Prefix};
 use futures::io::{AsyncRead, AsyncWrite};
 use futures::stream::StreamExt;
-use futures::task::noop_waker;
 
 use crate::e_codec::{chk, encode};
-use crate::e_hasher::hres_j;
+use crate::e_hasher::{hres_j, Kind, ScriptHasher};
 use crate::e_incoming::{gen_wantlist, wantlist_j};
 use crate::gen::*;
 use crate::json::{Case, J};
 use crate::node::Cid64;
 use crate::rng::Rng;
+
+struct WakeFlag(std::sync::atomic::AtomicBool);
+impl std::task::Wake for WakeFlag {
+    fn wake(self: Arc<Self>) {
+        self.0.store(true, std::sync::atomic::Ordering::SeqCst);
+    }
+}
 
 #[derive(Clone, Debug)]
 enum Ev {
@@ -72,7 +77,9 @@ fn run_impl(table: &HasherTable<64>, evs: &[Ev]) -> J {
     let out2 = out.clone();
     let res = catch_unwind(AssertUnwindSafe(|| {
         let mut st = incoming_stream(Box::new(Reader(q.clone())), table);
-        let waker = noop_waker();
+        // a flag waker: a Pending that woke itself (scripted read Pending, asynchronous hasher) is polled again
+        let flag = Arc::new(WakeFlag(std::sync::atomic::AtomicBool::new(false)));
+        let waker = std::task::Waker::from(flag.clone());
         let mut cx = Context::from_waker(&waker);
         let mut fin = "SPending";
         for _ in 0..10_000 {
@@ -97,7 +104,8 @@ fn run_impl(table: &HasherTable<64>, evs: &[Ev]) -> J {
                     break;
                 }
                 Poll::Pending => {
-                    if q.lock().unwrap().is_empty() {
+                    let woken = flag.0.swap(false, std::sync::atomic::Ordering::SeqCst);
+                    if !woken && q.lock().unwrap().is_empty() {
                         break;
                     }
                 }
@@ -112,11 +120,18 @@ fn run_impl(table: &HasherTable<64>, evs: &[Ev]) -> J {
     }
 }
 
-fn gen_msg(rng: &mut Rng, pool: &[(Cid64, Vec<u8>)]) -> Message {
+fn gen_msg(rng: &mut Rng, pool: &[(Cid64, Vec<u8>)], scripted: bool) -> Message {
     let nb = rng.usize(3);
     let payload = (0..nb)
         .map(|_| {
             let (c, d) = rng.pick(pool).clone();
+            if scripted && rng.chance(1, 2) {
+                // a block under a scripted hasher whose answer takes 0-3 extra polls (first data byte mod 4)
+                let mut p = vec![1u8, 0x55];
+                p.extend(leb128(*rng.pick(&[0x99u64, 0x9a])));
+                p.push(8);
+                return Block { prefix: p, data: vec![rng.below(8) as u8, d[0], 7] };
+            }
             match rng.below(6) {
                 0 => Block { prefix: vec![1, 0x55, 0x77, 4], data: d },            // unknown code: skipped
                 1 => Block { prefix: Prefix::from_cid(&c).to_bytes(), data: vec![9, 9] }, // wrong data
@@ -142,11 +157,22 @@ fn gen_msg(rng: &mut Rng, pool: &[(Cid64, Vec<u8>)]) -> Message {
 
 fn one(rng: &mut Rng) -> Case {
     let pool: Vec<(Cid64, Vec<u8>)> = (0..3).map(|i| { let d = vec![i as u8, 5]; (honest_cid::<64>(rng, &d), d) }).collect();
-    let table = HasherTable::<64>::new(Vec::<StandardMultihasher>::new());
+    // half of the cases: an asynchronous scripted hasher for two more codes, so that process_message is really Pending
+    // while the next frame is already readable
+    let scripted = rng.chance(1, 2);
+    let table = if scripted {
+        let log = Arc::new(Mutex::new(Vec::new()));
+        HasherTable::<64>::new(vec![ScriptHasher { id: 0, answers: vec![(0x99, Kind::Ok(rng.bytes(8))), (0x9a, Kind::Validating(rng.bytes(8)))], log }])
+    } else {
+        HasherTable::<64>::new(Vec::<ScriptHasher>::new())
+    };
     let nmsgs = 1 + rng.usize(4);
-    let msgs: Vec<Message> = (0..nmsgs).map(|_| gen_msg(rng, &pool)).collect();
+    let msgs: Vec<Message> = (0..nmsgs).map(|_| gen_msg(rng, &pool, scripted)).collect();
     let mut bytes = Vec::new();
     let mut tags = vec![format!("msgs{nmsgs}")];
+    if scripted {
+        tags.push("async_hasher".into());
+    }
     for (i, m) in msgs.iter().enumerate() {
         let mut f = encode(m).unwrap();
         // a bad frame somewhere: invalid presence CID, corrupted byte, oversize announcement, bad varint
